@@ -345,6 +345,13 @@ FlattenPath(path) ==
                  THEN Append(np, <<>>) ELSE np
        IN <<SLASH>> \o Join(n2, SLASH)
 
+\* url.py normalize_userinfo_text: [ok, v]
+PctOctets(text, set, enc) ==
+  LET e == Encode(text, enc) IN
+  IF ~e.ok THEN [ok |-> FALSE]
+  ELSE LET b == UnqBytes(e.v) IN
+       [ok |-> TRUE, v |-> Flat([i \in 1..Len(b) |-> IF b[i] < 32 \/ b[i] > 126 \/ b[i] \in set THEN PctByte(b[i]) ELSE <<b[i]>>])]
+
 NormPath(path, enc) == LET p == IF StartsWith(path, <<SLASH>>) THEN path ELSE <<SLASH>> \o path
                            e == PctEncode(FlattenPath(p), DefaultSet, enc) IN
                        IF e.ok THEN [ok |-> TRUE, v |-> UpperPct(e.v)] ELSE e
@@ -434,10 +441,11 @@ NormRel(url, scheme, rem0, enc) ==
         password == Unquote(pu[3], enc)
         port == IF ph.port = 0 THEN DefaultPort(scheme) ELSE ph.port
         v6   == StartsWith(host, <<LBR>>)
-        \* the .url property (normalize_username / normalize_password always use utf-8 in the code as it is)
-        uenc == IF FixUserPct THEN enc ELSE "utf-8"
-        eu   == PctEncode(username, UsernameSet, uenc)
-        ep   == PctEncode(password, PasswordSet, uenc)
+        \* the .url property (normalize_userinfo_text): the user info AS WRITTEN is encoded, its escapes are undone
+        \* octet-wise, and the octets are escaped again - so octets that were escaped stay what they were, whatever
+        \* the encoding (decoding them as text and encoding the text again is not repeatable under another encoding)
+        eu   == PctOctets(pu[1], UsernameSet, enc)
+        ep   == PctOctets(pu[3], PasswordSet, enc)
     IN
     IF (Len(username) > 0 /\ ~eu.ok) \/ (Len(password) > 0 /\ ~ep.ok) THEN
          \* parse() returned, but reading .url raises UnicodeEncodeError: seen by callers as a ValueError from normalize()
